@@ -36,7 +36,8 @@ func c17Setup() {
 			// names that end in the letters of an allowed extension without being that extension
 			"src/theme.scss": "THEME-SCSS", "nodejs": "NODEJS", "src/worker.mjs": "WORKER-MJS", "keys_js": "KEYS-JS", "a.xcss": "A-XCSS",
 		}
-		out := map[string]string{"secret.txt": "TOP-SECRET", "pub-private/key.txt": "PRIVATE-KEY", "pub.bak/a.css": "BAK-CSS", "pubx": "PUBX", "secret.js": "SECRET-JS", "secret.css": "SECRET-CSS"}
+		out := map[string]string{"secret.txt": "TOP-SECRET", "pub-private/key.txt": "PRIVATE-KEY", "pub.bak/a.css": "BAK-CSS", "pubx": "PUBX", "secret.js": "SECRET-JS", "secret.css": "SECRET-CSS",
+			"admin/index.html": "ADMIN-INDEX", "index.html": "OUTSIDE-INDEX", "pub-private/x.js": "PRIVATE-JS", "pub.bak/css/b.css": "BAK-CSS-B"}
 		c17Root = filepath.Join(base, "pub")
 		for rel, content := range in {
 			p := filepath.Join(c17Root, rel)
@@ -87,7 +88,8 @@ func c17Gen(r *Rng, tier string, i int) Sx {
 		for k := r.Intn(3); k > 0; k-- {
 			switch r.Intn(10) {
 			case 7:
-				p = r.Pick([]string{"./../secret.js", "sub//../../secret.js", "%2e/%2e%2e/secret.css", "././../../secret.js", ".//..//secret.css"})
+				p = r.Pick([]string{"../admin/index.html", "%2e%2e/admin/index.html", "../index.html", "sub/../../admin/index.html", "../pub.bak/a.css", "../pub-private/x.js",
+					"../pub.bak/css/b.css", "%2e%2e/pub.bak/a.css", "./../secret.js", "sub//../../secret.js", "%2e/%2e%2e/secret.css", "././../../secret.js", ".//..//secret.css"})
 			case 8:
 				p = "./" + p + "/../../secret.js"
 			case 9:
